@@ -547,6 +547,51 @@ theorem sigLess?_of_safe (s r : Signature) (h : Signature.lessSafe s r = true) :
     cases a <;> cases b <;> simp at hq <;> (split at hq <;> try split at hq) <;> simp at hq
   | some v => rw [sigLess?_eq_less s r v hq]
 
+/-! ### the comparison closure of Aggregate -/
+
+/-- The translated closure computes the model's `bucketLess` whenever Go does not
+panic inside `Signature.less` (C03's `aggregate_total` shows it never does on the
+buckets of one aggregation). -/
+theorem tie_Aggregate_sortLess (l r : Bkt) (b : Bool) (h : Aggregate_sortLess modelEnv l r = some b) :
+    bucketLess l r = b := by
+  simp only [Aggregate_sortLess, mE_Signature_less] at h
+  simp only [bucketLess]
+  by_cases hf : (l.first || r.first) = true
+  · simp only [hf, if_true, Option.some.injEq] at h ⊢; exact h
+  · simp only [hf, Bool.false_eq_true, if_false] at h ⊢
+    cases h1 : sigLess? l.key r.key with
+    | none => simp [h1] at h
+    | some t1 =>
+      have e1 := sigLess?_eq_less _ _ _ h1
+      simp only [h1, Option.bind_some] at h
+      cases t1
+      · simp only [Bool.false_eq_true, if_false] at h
+        cases h2 : sigLess? r.key l.key with
+        | none => simp [h2] at h
+        | some t2 =>
+          have e2 := sigLess?_eq_less _ _ _ h2
+          simp only [h2, Option.bind_some] at h
+          cases t2
+          · simp only [Bool.false_eq_true, if_false, len] at h
+            simp only [e1, e2, Bool.false_eq_true, if_false]
+            by_cases hn : (r.ids.length != l.ids.length) = true
+            · simp only [hn, if_true, Option.some.injEq] at h ⊢; exact h
+            · simp only [hn, Bool.false_eq_true, if_false, Option.some.injEq] at h ⊢; exact h
+          · simp only [if_true, Option.some.injEq] at h
+            simp [e1, e2, ← h]
+      · simp only [if_true, Option.some.injEq] at h
+        simp [e1, ← h]
+
+theorem tie_Aggregate_sortLess_safe (l r : Bkt)
+    (h1 : Signature.lessSafe l.key r.key = true) (h2 : Signature.lessSafe r.key l.key = true) :
+    Aggregate_sortLess modelEnv l r = some (bucketLess l r) := by
+  cases hq : Aggregate_sortLess modelEnv l r with
+  | some v => rw [tie_Aggregate_sortLess l r v hq]
+  | none =>
+    simp only [Aggregate_sortLess, mE_Signature_less, sigLess?_of_safe _ _ h1, sigLess?_of_safe _ _ h2,
+      Option.bind_some] at hq
+    repeat (split at hq <;> try simp at hq)
+
 end PP.Tr
 
 #print axioms PP.Tr.tie_Arg_equal
@@ -567,3 +612,5 @@ end PP.Tr
 #print axioms PP.Tr.tie_Signature_less
 #print axioms PP.Tr.sigLess?_eq_less
 #print axioms PP.Tr.sigLess?_of_safe
+#print axioms PP.Tr.tie_Aggregate_sortLess
+#print axioms PP.Tr.tie_Aggregate_sortLess_safe
